@@ -1,6 +1,7 @@
 package props
 
 import (
+	"fmt"
 	"go/token"
 	"strings"
 
@@ -58,6 +59,58 @@ func c10(r *Report) {
 	// (5) positional metadata references, (6) conflict counter mirrors the conflicted shelf
 	c10MetaRefPositional(r, p.Func(ds, "", "writeEventList"))
 	c10ConflictDelta(r, p.Func(ds, "store", "applyFrom"))
+	c10TwoPhase(r, p.Func(ds, "store", "Add"))
+}
+
+// c10TwoPhase: the document (and its transaction index) is written in its own write transaction, which has committed
+// before the transaction that inserts the event and re-applies the list starts: re-applying reads documents back by
+// payload hash, and on the Redis backend a write transaction does not see its own writes. Merging the two makes the
+// outcome depend on whether the documents of later-sorting events were stored earlier, i.e. on arrival order.
+func c10TwoPhase(r *Report, add *ssa.Function) {
+	rule := "ORDER: store.Add writes the document in a first write transaction whose success gates the second one (event insert + re-apply); the two are distinct closures"
+	key := "C10.add.two-phase-write"
+	if add == nil {
+		r.Lost(key, rule, "store.Add not found")
+		return
+	}
+	write := r.P.FnOrImpl(stoabsPkg, "KVStore", "Write")
+	var docW, applyW ssa.CallInstruction
+	n := 0
+	for _, c := range Calls(add, write) {
+		n++
+		for _, a := range c.Common().Args {
+			mc, ok := StripConv(a).(*ssa.MakeClosure)
+			if !ok {
+				continue
+			}
+			cl := mc.Fn.(*ssa.Function)
+			hasDoc := len(CallsDeep(cl, Fn("vdr/didnuts/didstore", "", "writeDocument"))) > 0
+			hasApply := len(CallsDeep(cl, Fn("vdr/didnuts/didstore", "store", "applyFrom"))) > 0
+			if hasDoc && hasApply {
+				r.Bad(key, rule, r.P.Pos(c.Pos()), "one write transaction both writes the document and re-applies the event list")
+				return
+			}
+			if hasDoc {
+				docW = c
+			}
+			if hasApply {
+				applyW = c
+			}
+		}
+	}
+	r.Sites += n
+	if docW == nil || applyW == nil {
+		r.Lost(key, rule, fmt.Sprintf("%d Write calls; document-writing / re-applying transaction not both found", n))
+		return
+	}
+	g := Gate{Fn: add, Effect: InstrEffect("start the insert/re-apply transaction", func(in ssa.Instruction) bool { return in == ssa.Instruction(applyW) }),
+		Check: Check{Desc: "document write transaction err == nil", Call: &write, Result: -1, Pass: ErrNil, Filter: func(ci ssa.CallInstruction) bool { return ci == docW }}}
+	res := r.P.RunGate(&g)
+	if res.CheckSites == 0 || len(res.Violations) > 0 {
+		r.Bad(key, rule, r.P.Pos(applyW.Pos()), "the re-apply transaction can start although the document write transaction did not succeed: "+strings.Join(res.Violations, " || "))
+		return
+	}
+	r.OK(key, rule, r.P.Pos(add.Pos()), "two closures; the second starts only after the first returned nil", true)
 }
 
 // c10MetaRefPositional: after an out-of-order insert the positions of later events shift; the metadata record of an
